@@ -1,5 +1,6 @@
 import Fabio.Model.C13Glue
 import Fabio.Lemmas.C13
+import Fabio.Props.C13
 /-!
 C13, round 3 — the glue around the redirect core: property theorems (core Lean only).
 
@@ -215,6 +216,222 @@ example : fields (lit "  a=1 \t b  c=2\n") = [lit "a=1", lit "b", lit "c=2"] := 
 example :
     let o := lit "strip=/old"
     o ∈ fields (lit "strip=/old redirect=301,https://x$path") ∧ passedOn o = some o ∧ keyVal o = (lit "strip", lit "/old") := by
+  decide
+
+/-! ### the tag model meets the tag specification -/
+
+theorem kRedirect_eq : kRedirect = [114, 101, 100, 105, 114, 101, 99, 116, 61] := by decide
+theorem litRedirect_eq : lit "redirect" = [114, 101, 100, 105, 114, 101, 99, 116] := by decide
+
+theorem keyVal_redirect (code : Str) : keyVal (kRedirect ++ code) = (lit "redirect", code) := by
+  rw [kRedirect_eq, litRedirect_eq]
+  simp [keyVal, cut]
+
+/-- `strings.Cut` puts the string back together -/
+theorem cut_spec (sep : UInt8) (s : Str) :
+    s = if (cut sep s).2.2 then (cut sep s).1 ++ sep :: (cut sep s).2.1 else (cut sep s).1 := by
+  induction s with
+  | nil => simp [cut]
+  | cons c cs ih =>
+    unfold cut
+    by_cases h : c == sep
+    · simp only [h, if_true]; simp at h; simp [h]
+    · simp only [h, Bool.false_eq_true, if_false]
+      split
+      · rename_i hf; simp only [hf, if_true] at ih; simp only [List.cons_append]; rw [← ih]
+      · rename_i hf; simp only [hf, Bool.false_eq_true, if_false] at ih; rw [← ih]
+
+/-- a field whose key is `redirect` is the bare word or starts with `redirect=` -/
+theorem key_redirect_cases (o : Str) (h : (keyVal o).1 = lit "redirect") :
+    o = lit "redirect" ∨ hasPrefix o kRedirect = true := by
+  have hs := cut_spec 61 o
+  have hk : (cut 61 o).1 = lit "redirect" := by simpa [keyVal] using h
+  by_cases hf : (cut 61 o).2.2 = true
+  · right
+    simp only [hf, if_true, hk] at hs
+    rw [hs, kRedirect_eq, litRedirect_eq]
+    simp [hasPrefix, List.isPrefixOf]
+  · left
+    simp only [hf, Bool.false_eq_true, if_false, hk] at hs
+    exact hs
+
+
+theorem kWeight_eq : kWeight = [119, 101, 105, 103, 104, 116, 61] := by decide
+theorem protoSchemes_keys : protoSchemes.map (·.1) =
+    [[112, 114, 111, 116, 111, 61, 116, 99, 112], [112, 114, 111, 116, 111, 61, 104, 116, 116, 112, 115],
+     [112, 114, 111, 116, 111, 61, 103, 114, 112, 99, 115], [112, 114, 111, 116, 111, 61, 103, 114, 112, 99]] := by decide
+
+theorem lookup_none_of_not_p (o : Str) (h : o.head? ≠ some 112) : protoSchemes.lookup o = none := by
+  have hk : ∀ k ∈ protoSchemes.map (·.1), k.head? = some 112 := by rw [protoSchemes_keys]; decide
+  have : ∀ (l : List (Str × Str)), (∀ k ∈ l.map (·.1), k.head? = some 112) → l.lookup o = none := by
+    intro l
+    induction l with
+    | nil => intro _; rfl
+    | cons p ps ih =>
+      intro hl
+      have h1 : p.1.head? = some 112 := hl p.1 (by simp)
+      have hne : (o == p.1) = false := by
+        apply beq_false_of_ne; intro e; rw [e] at h; exact h h1
+      obtain ⟨k, v⟩ := p
+      simp only [List.lookup, hne]
+      exact ih (fun k hk => hl k (by simp only [List.map_cons, List.mem_cons]; exact Or.inr hk))
+  exact this _ hk
+
+theorem head_of_redirect (o : Str) (h : hasPrefix o kRedirect = true) : o.head? = some 114 := by
+  rw [kRedirect_eq] at h
+  cases o with
+  | nil => simp [hasPrefix, List.isPrefixOf] at h
+  | cons c cs => simp [hasPrefix, List.isPrefixOf] at h; simp [h.1]
+
+theorem not_weight_of_redirect (o : Str) (h : hasPrefix o kRedirect = true) : hasPrefix o kWeight = false := by
+  have := head_of_redirect o h
+  rw [kWeight_eq]
+  cases o with
+  | nil => simp at this
+  | cons c cs =>
+    simp only [List.head?_cons, Option.some.injEq] at this
+    subst this
+    simp [hasPrefix, List.isPrefixOf]
+
+theorem lookup_none_of_redirect (o : Str) (h : hasPrefix o kRedirect = true) : protoSchemes.lookup o = none :=
+  lookup_none_of_not_p o (by rw [head_of_redirect o h]; decide)
+
+/-- the four kinds of field -/
+theorem passedOn_cases (o : Str) :
+    (plainP o = true ∧ passedOn o = some o ∧ hasPrefix o kRedirect = false) ∨
+    (plainP o = false ∧ passedOn o = none ∧ hasPrefix o kRedirect = false) ∨
+    (plainP o = false ∧ hasPrefix o kRedirect = true ∧
+      ∃ code url, splitComma (o.drop kRedirect.length) = [code, url] ∧ passedOn o = some (kRedirect ++ code)) ∨
+    (plainP o = false ∧ hasPrefix o kRedirect = true ∧ passedOn o = none ∧
+      ∀ code url, splitComma (o.drop kRedirect.length) ≠ [code, url]) := by
+  by_cases hr : hasPrefix o kRedirect = true
+  · have hl := lookup_none_of_redirect o hr
+    have hw := not_weight_of_redirect o hr
+    have hp : plainP o = false := by simp [plainP, hr]
+    cases hsp : splitComma (o.drop kRedirect.length) with
+    | nil => right; right; right; refine ⟨hp, hr, ?_, ?_⟩ <;> simp [passedOn, hl, hw, hr, hsp]
+    | cons a t =>
+      cases t with
+      | nil => right; right; right; refine ⟨hp, hr, ?_, ?_⟩ <;> simp [passedOn, hl, hw, hr, hsp]
+      | cons b t2 =>
+        cases t2 with
+        | nil => right; right; left; exact ⟨hp, hr, a, b, rfl, by simp [passedOn, hl, hw, hr, hsp]⟩
+        | cons c t3 => right; right; right; refine ⟨hp, hr, ?_, ?_⟩ <;> simp [passedOn, hl, hw, hr, hsp]
+  · have hr' : hasPrefix o kRedirect = false := by simpa using hr
+    cases hl : protoSchemes.lookup o with
+    | some v => right; left; exact ⟨by simp [plainP, hl], by simp [passedOn, hl], hr'⟩
+    | none =>
+      by_cases hw : hasPrefix o kWeight = true
+      · right; left; exact ⟨by simp [plainP, hw], by simp [passedOn, hl, hw], hr'⟩
+      · have hw' : hasPrefix o kWeight = false := by simpa using hw
+        left; exact ⟨by simp [plainP, hl, hw', hr'], by simp [passedOn, hl, hw', hr'], hr'⟩
+
+
+/-- the step of `optValue` -/
+def ovStep (key : Str) (cur f : Str) : Str := if (keyVal f).1 == key then (keyVal f).2 else cur
+
+theorem optValue_eq_foldl (key : Str) (L : List Str) : optValue key L = L.foldl (ovStep key) [] := rfl
+
+/-- options other than `redirect`: what `parseOpts` reads from the passed-on options is what it reads from the
+tag's plain fields — the `redirect=<code>` entries the loop inserts have another key -/
+theorem foldl_passedOn_plain (key : Str) (hk : key ≠ lit "redirect") (fs : List Str) (cur : Str) :
+    (fs.filterMap passedOn).foldl (ovStep key) cur = (fs.filter plainP).foldl (ovStep key) cur := by
+  induction fs generalizing cur with
+  | nil => rfl
+  | cons o os ih =>
+    rcases passedOn_cases o with ⟨hp, hpo, _⟩ | ⟨hp, hpo, _⟩ | ⟨hp, _, code, url, _, hpo⟩ | ⟨hp, _, hpo, _⟩
+    · simp only [List.filterMap_cons, hpo, List.filter_cons, hp, if_true, List.foldl_cons, ih]
+    · simp only [List.filterMap_cons, hpo, List.filter_cons, hp, Bool.false_eq_true, if_false, ih]
+    · have : ovStep key cur (kRedirect ++ code) = cur := by
+        have hne : (lit "redirect" == key) = false := beq_false_of_ne (fun e => hk e.symm)
+        simp [ovStep, keyVal_redirect, hne]
+      simp only [List.filterMap_cons, hpo, List.filter_cons, hp, Bool.false_eq_true, if_false, List.foldl_cons, this, ih]
+    · simp only [List.filterMap_cons, hpo, List.filter_cons, hp, Bool.false_eq_true, if_false, ih]
+
+def codeOf : Option (Str × Str) → Str
+  | none => []
+  | some (c, _) => c
+
+/-- the step of `lastRedirectField` -/
+def lrStep (cur : Option (Str × Str)) (o : Str) : Option (Str × Str) :=
+  if hasPrefix o kRedirect then
+    match splitComma (o.drop kRedirect.length) with
+    | [code, url] => some (code, url)
+    | _ => cur
+  else cur
+
+theorem lastRedirectField_eq_foldl (fs : List Str) : lastRedirectField fs = fs.foldl lrStep none := rfl
+
+/-- the `redirect` option `parseOpts` reads is the code of the last well-formed redirect field — provided no
+bare field `redirect` stands among the options (it would be an option of that name with an empty value) -/
+theorem foldl_passedOn_redirect (fs : List Str) (hb : lit "redirect" ∉ fs) (cur : Option (Str × Str)) :
+    (fs.filterMap passedOn).foldl (ovStep (lit "redirect")) (codeOf cur) = codeOf (fs.foldl lrStep cur) := by
+  induction fs generalizing cur with
+  | nil => rfl
+  | cons o os ih =>
+    have hb' : lit "redirect" ∉ os := fun h => hb (by simp [h])
+    have ho : o ≠ lit "redirect" := fun h => hb (by simp [h])
+    rcases passedOn_cases o with ⟨hp, hpo, hr⟩ | ⟨hp, hpo, hr⟩ | ⟨hp, hr, code, url, hsp, hpo⟩ | ⟨hp, hr, hpo, hsp⟩
+    · -- a plain field: its key is not `redirect`
+      have hkey : ((keyVal o).1 == lit "redirect") = false := by
+        apply beq_false_of_ne
+        intro e
+        rcases key_redirect_cases o e with h | h
+        · exact ho h
+        · rw [hr] at h; cases h
+      have h1 : ovStep (lit "redirect") (codeOf cur) o = codeOf cur := by simp [ovStep, hkey]
+      have h2 : lrStep cur o = cur := by simp [lrStep, hr]
+      simp only [List.filterMap_cons, hpo, List.foldl_cons, h1, h2, ih hb' cur]
+    · have h2 : lrStep cur o = cur := by simp [lrStep, hr]
+      simp only [List.filterMap_cons, hpo, List.foldl_cons, h2, ih hb' cur]
+    · have h1 : ovStep (lit "redirect") (codeOf cur) (kRedirect ++ code) = codeOf (some (code, url)) := by
+        simp [ovStep, keyVal_redirect, codeOf]
+      have h2 : lrStep cur o = some (code, url) := by simp [lrStep, hr, hsp]
+      simp only [List.filterMap_cons, hpo, List.foldl_cons, h1, h2, ih hb' (some (code, url))]
+    · have h2 : lrStep cur o = cur := by
+        unfold lrStep
+        rw [if_pos hr]
+        split
+        · rename_i c u heq; exact absurd heq (hsp c u)
+        · rfl
+      simp only [List.filterMap_cons, hpo, List.foldl_cons, h2, ih hb' cur]
+
+/-- **The model of the tag loop meets the tag specification**: for every service address and every option text
+without a bare `redirect` field, the target `routecmd.build` + `parseOpts` + `addTarget` configure carries the
+tag's last plain `strip=` and `prepend=` values wherever they stand relative to `redirect=<code>,<url>`, and its
+status is the configured code of the last well-formed redirect field.
+**Partial**: the hypothesis is forced — the tag `urlprefix-` + `/ redirect=301,https://x$path redirect` yields the options
+`redirect=301 redirect`, `parseOpts` lets the bare word win with an empty value and the route is proxied to
+`https://x$path` (example below; replayed on the real code from the corpus of `c13.tag`, class `bare-redirect-option`). -/
+theorem tag_target_meets_spec_partial (addr opts : Str) (hb : lit "redirect" ∉ fields opts) :
+    tagSpec opts (tagTarget addr opts).strip (tagTarget addr opts).prepend (tagTarget addr opts).code = true := by
+  have hs : (lit "strip") ≠ lit "redirect" := by decide
+  have hp : (lit "prepend") ≠ lit "redirect" := by decide
+  have hc : (fields opts).contains (lit "redirect") = false := by
+    simpa using hb
+  unfold tagSpec
+  simp only [hc, Bool.false_eq_true, if_false]
+  cases hl : lastRedirectField (fields opts) with
+  | none => rfl
+  | some p =>
+    obtain ⟨c, u⟩ := p
+    have e1 : (tagTarget addr opts).strip = lastPlainValue (lit "strip") (fields opts) := by
+      simp only [tagTarget, lastPlainValue, tag_options_passed_on, optValue_eq_foldl, foldl_passedOn_plain _ hs]
+    have e2 : (tagTarget addr opts).prepend = lastPlainValue (lit "prepend") (fields opts) := by
+      simp only [tagTarget, lastPlainValue, tag_options_passed_on, optValue_eq_foldl, foldl_passedOn_plain _ hp]
+    have e3 : (tagTarget addr opts).code = configuredCode c := by
+      have := foldl_passedOn_redirect (fields opts) hb none
+      rw [← lastRedirectField_eq_foldl, hl] at this
+      simp only [tagTarget, tag_options_passed_on, optValue_eq_foldl]
+      simp only [codeOf] at this
+      rw [this]
+      exact Fabio.Props.C13.configured_status_is_the_code c
+    simp [e1, e2, e3]
+
+/-- the excluded point: a bare `redirect` after the redirect field switches the redirect off (as coded) -/
+example :
+    (tagTarget (lit "10.0.0.1:80") (lit "redirect=301,https://x$path redirect")).code = 0 ∧
+    (tagCmd (lit "10.0.0.1:80") (lit "redirect=301,https://x$path redirect")).ropts = [lit "redirect=301", lit "redirect"] := by
   decide
 
 end Fabio.Props.C13Glue
